@@ -193,6 +193,7 @@ class ServerSet(object):
     self._on_leave = on_leave or noop
     self._notification_queue = Queue(0)
     self._watching = False
+    self._watched_czxid = None
     self._cb_blocker = self._CallbackBlocker()
     self._member_filter = member_filter or true
     self._member_factory = member_factory or Member.from_node
@@ -265,11 +266,16 @@ class ServerSet(object):
 
   def _data_changed(self, data, stat):
     # stat == None -> the node was deleted (or doesnt exist)
+    czxid = getattr(stat, 'czxid', None)
     if stat is None:
       self._watching = False
       self._send_all_removed()
-    elif not self._watching:
+    elif not self._watching or czxid != self._watched_czxid:
+      # Either the first time we see the node, or it was deleted and re-created
+      # between two notifications (the children watch of the old node stopped
+      # itself), so a new children watch is needed.
       self._watching = True
+      self._watched_czxid = czxid
       self._begin_watch()
 
   def _begin_watch(self):
@@ -277,32 +283,29 @@ class ServerSet(object):
     ChildrenWatch(self._zk, self._zk_path, self._on_set_changed)
 
   def _send_all_removed(self):
-    # The watched path is gone: forget everything we knew about its children so
-    # that members created after it comes back are reported again.
-    members, self._members = self._members, {}
-    self._nodes = set()
-    for member in members.values():
-      try:
-        self._on_leave(member)
-      except Exception:
-        self._log.exception('Error in OnLeave callback.')
+    # The watched path is gone: every member has left.  This goes through the
+    # notification worker like any other change so that it is ordered with
+    # joins that are still being processed.
+    self._on_set_changed(())
 
   def _notification_worker(self):
     """'Atomically' raise notifications for join / leave.
 
-    Having this in a worker prevents multiple updates from interleaving with
+    Each work item is the complete set of child nodes at some point in time;
+    the worker reconciles the members it has reported so far with it.  Having
+    this in a single worker prevents multiple updates from interleaving with
     each other, as _zk_nodes_to_members may yield.
     """
     while self._running:
-      work = self._notification_queue.get()
+      children = self._notification_queue.get()
       self._cb_blocker.ensure_safe()
       try:
-        new_nodes, removed_nodes = work
+        removed_nodes = [n for n in self._members if n not in children]
+        new_nodes = [n for n in children if n not in self._members]
         new_members = self._zk_nodes_to_members(new_nodes)
-        self._members.update(((m.name, m) for m in new_members))
 
         self._log.debug("Raising notifications for %i members joining and %i members leaving."
-                 % (len(new_nodes), len(removed_nodes)))
+                 % (len(new_members), len(removed_nodes)))
 
         for m in removed_nodes:
           removed_member = self._members.pop(m, None)
@@ -311,10 +314,11 @@ class ServerSet(object):
               self._on_leave(removed_member)
             except Exception:
               self._log.exception('Error in OnLeave callback.')
-          else:
-            self._log.warn('Member %s was not found in cached set' % str(m))
 
         for m in new_members:
+          if m.name in self._members:
+            continue
+          self._members[m.name] = m
           try:
             self._on_join(m)
           except Exception:
@@ -330,9 +334,6 @@ class ServerSet(object):
       children - The new set of child nodes.
     """
     children = set([c for c in children if self._member_filter(c)])
-    current_nodes = set(self._nodes)
     self._nodes = children
-    new_nodes = children - current_nodes
-    removed_nodes = current_nodes - children
     self._log.debug("Queueing notifications")
-    self._notification_queue.put((new_nodes, removed_nodes))
+    self._notification_queue.put(children)
